@@ -17,7 +17,7 @@ ID = "C19"
 LEVEL = "model_checking"
 RULE = ("harnesses: H0 every leftover cache directory (installed files x stale temp copy x lock file x time stamp) then a "
         "load of each version; H1 two populators || one loader on an empty cache; H2 one populator crashed at every point, then loader, "
-        "populator, loader; H3 populator || populator; H4 two CacheLock holders (time-out allowed to fire), H4c three holders; H5c two time-recording refreshers at one clock time; H5 refresh interval "
+        "populator, loader; H3 populator || populator; H4 two CacheLock holders (time-out allowed to fire), H4c three holders; H8 slow lock holder || loader (the loader's lock attempts may time out, empty and half-filled cache); H5c two time-recording refreshers at one clock time; H5 refresh interval "
         "x clock answers x torn time-stamp files; H6 network refresh (fake server) crashed at every point || loader; H7 network refresh whose download is cut after k bytes (real url_to_file over a fake response).  Every "
         "execution with <= B deviations (preemption of a runnable process, lock time-out, crash) is run on the real functions; "
         "state = (directory contents, lock holder, per-process program point) reached after each step; transition = one "
@@ -574,6 +574,29 @@ def h4(rec, world, shard, nshards, bound):
     return sched.explore(mk, bound, chk, shard_filter(shard, nshards))
 
 
+def h8(rec, world, shard, nshards, bound, versions, initial_names=()):
+    """A process that keeps the cache lock for a while (a refresh over a slow network does) and a loader whose own lock
+    attempts may time out: the load of a bundled version succeeds all the same."""
+    def slow_holder():
+        from hed.schema.hed_cache_lock import CacheLock, CacheException
+        try:
+            with CacheLock(WORLD.cache, write_time=False):
+                pt("in-critical-section", "slow-1")
+                pt("in-critical-section", "slow-2")
+            return ("held", "slow")
+        except CacheException:
+            return ("gave-up", "slow")
+    procs = [("slow-holder", slow_holder, False), ("loader", make_loader(versions[0]), False)]
+    initial = {n: world.bytes[n] for n in initial_names}
+
+    def mk(choices):
+        return run_exec(world, procs, choices, initial=initial, crash=False)
+
+    def chk(x):
+        check_common(rec, world, x, "H8", versions, False)
+    return sched.explore(mk, bound, chk, shard_filter(shard, nshards))
+
+
 def h4c(rec, world, shard, nshards, bound):
     """Three holders of the cache lock on one directory (a holder, a waiter that arrived meanwhile, a late comer): never two
     inside at once."""
@@ -974,6 +997,8 @@ def worker(rec, shard, nshards, scratch, files, bounds, thorough, seed):
                      ("H4", lambda: h4(rec, WORLD, shard, nshards, bounds["H4"])),
                      ("H4c", lambda: h4c(rec, WORLD, shard, nshards, bounds["H4c"])),
                      ("H5c", lambda: h5c(rec, WORLD, shard, nshards, bounds["H4"])),
+                     ("H8", lambda: h8(rec, WORLD, shard, nshards, bounds["H8"], versions)),
+                     ("H8b", lambda: h8(rec, WORLD, shard, nshards, bounds["H8"], versions, (version_file(versions[1]),))),
                      ("H6", lambda: h6(rec, WORLD, shard, nshards, bounds["H6"], versions[0]))):
         st = fn()
         rec.n("executions_" + name, st["executions"])
@@ -989,8 +1014,8 @@ def worker(rec, shard, nshards, scratch, files, bounds, thorough, seed):
 def run(ctx):
     files = ["HED8.3.0.xml", "HED8.2.0.xml"] if not ctx.thorough else ["HED8.3.0.xml", "HED8.2.0.xml",
                                                                       "HED_score_1.1.0.xml", "HED_testlib_2.0.0.xml"]
-    bounds = ({"H1": 1, "H3": 2, "H4": 2, "H4c": 2, "H6": 1} if not ctx.thorough else
-              {"H1": 2, "H3": 2, "H4": 3, "H4c": 3, "H6": 2})
+    bounds = ({"H1": 1, "H3": 2, "H4": 2, "H4c": 2, "H6": 1, "H8": 3} if not ctx.thorough else
+              {"H1": 2, "H3": 2, "H4": 3, "H4c": 3, "H6": 2, "H8": 4})
     scratch = ctx.subdir("c19")
     ctx.rec.notes["bounds"] = {"installed_files": files, "deviation_bounds": bounds,
                                "H2": "crash at every point of the populator (bound 1) + sequential continuation"}
